@@ -148,4 +148,61 @@ PROPS = {
                      "for all expressions a VAR_NOT_FOUND error must name a variable that really is missing",
                      "fault kinds: missing variable / function only (modelled as operations of the history)"],
     ),
+    "C03": dict(
+        quick={"batches": [dict(name="fault-injecting histories", runs=16_000, wall=150, recheck=300, args=["-sim.faults", "on"]),
+                           dict(name="fault-free histories under the same monitor", runs=8_000, wall=150, recheck=200, args=["-sim.faults", "off"])],
+               "minimise_wall": 30},
+        thorough={"batches": [dict(name="fault-injecting histories", runs=1_200_000, wall=1500, recheck=2000, args=["-sim.faults", "on"]),
+                              dict(name="fault-free histories under the same monitor", runs=500_000, wall=1500, recheck=1000, args=["-sim.faults", "off"])],
+                  "minimise_wall": 120},
+        anchor_files=["calculator/functions/DelegatedFunction.go", "calculator/ExpressionCalculator.go", "tokenizers/AbstractTokenizer.go",
+                      "calculator/parsers/ExpressionParser.go", "mustache/parsers/MustacheParser.go", "mustache/MustacheTemplate.go"],
+        rule="A case is one history of 2-12 steps on one reused instance (tokenizers, parsers, calculator, template; inputs from the C05 pool, the "
+             "expression/template generators and calls of the 37 built-in functions with literal arguments), most steps carrying a fault at a seam: "
+             "the scanner panics at call k or ends after k characters, the consumer abandons after j tokens, the function delegate returns an error or "
+             "panics, a variable is missing, the operations manager fails at call n (indices resolved against a fault-free dry run, so the fault lands "
+             "inside the operation). A second batch runs the same generators without faults under the same monitor. Non-trivial: at least one fault "
+             "fired inside an operation. Distinct: hash of (task, fault switch).",
+        state_measure="distinct (instance kind, consumption mode, fired fault kind, outcome kind) tuples",
+        fault_kinds=["fail_at", "eof_at", "abandon_after", "op_error", "var_missing", "fn_error", "fn_panic", "fn_error_plain"],
+        probes=["fault_free_runs"],
+        real=["all tokenizers, parsers, ExpressionCalculator, MustacheTemplate, DefaultFunctionCollection (instrumented copy)"],
+        stub=["SimScanner", "SimOps", "SimVariables", "Faulty / PlainFaulty functions (pass-through except where a fault is scheduled)"],
+        not_decided="'For every input string': inputs are those the history and fault workloads need (pool + generators); there is no fuzzer and no "
+                    "enumeration here, so a panic that needs a particular malformed input may be missed. Decided: every call in these workloads "
+                    "returns normally with exactly one of result / error, fired faults surface as errors, a failing scanner's panic propagates "
+                    "unchanged, every operation ends within 10^6 yield steps, a tokenization returns at most characters+1 tokens.",
+        assumptions=["a custom scanner can signal an I/O failure only by panicking (the IScanner interface has no error result); that panic is the "
+                     "one panic allowed to leave a tokenizer",
+                     "liveness is a step budget of 10^6 yield steps per operation, three orders of magnitude above what the workloads need"],
+    ),
+    "C08": dict(
+        quick={"batches": [dict(name="synctest bubbles: simulated clock with jumps, seeded PRNG, per-run zone, seam calls", runs=24_000, wall=150, recheck=300)],
+               "minimise_wall": 30},
+        thorough={"batches": [dict(name="synctest bubbles: simulated clock with jumps, seeded PRNG, per-run zone, seam calls", runs=2_000_000, wall=1500, recheck=2000)],
+                  "minimise_wall": 120},
+        clock=True,
+        anchor_files=["calculator/functions/DefaultFunctionCollection.go", "calculator/functions/DelegatedFunction.go", "calculator/functions/FunctionCollection.go"],
+        rule="A case is one run inside a testing/synctest bubble: 1-3 tasks with 1-6 operations each - Now(), Ticks(), Rnd()/Random() (1-5 draws), "
+             "Date(y,m,d[,h,mi,s]), DayOfWeek(Date(y,m,d)), a call of one of the 37 registered names in random letter case with 0-8 seeded arguments of "
+             "every variant type, a panicking delegate - each called either through IFunction.Calculate or through an expression; the scheduler "
+             "interleaves the tasks at yield points and advances the fake clock by 0, 1 ns, 999 ms, 1 s, 1 h, 36 h, 400 d or 30 y before resuming a task "
+             "(also in the middle of an evaluation); time.Local is a fixed zone between -12 h and +14 h. Non-trivial: a clock- or zone-dependent call "
+             "was checked or a function was called through the seam. Distinct: hash of (tasks, configuration, executed schedule with jumps).",
+        state_measure="distinct (zone offset, number of tasks, number of clock/zone dependent checks) triples",
+        fault_kinds=["delegate_panic"],
+        probes=["clock_jump_inside_evaluation", "now_after_long_jump", "date_in_non_utc_zone", "rnd_draws", "delegate_panic", "seam_calls"] +
+               ["fn_" + n.lower() for n in ["Ticks", "TimeSpan", "Now", "Date", "DayOfWeek", "Min", "Max", "Sum", "If", "Choose", "E", "Pi", "Rnd", "Random",
+                "Abs", "Acos", "Asin", "Atan", "Exp", "Log", "Ln", "Log10", "Ceil", "Ceiling", "Floor", "Round", "Trunc", "Truncate", "Cos", "Sin", "Tan",
+                "Sqr", "Sqrt", "Empty", "Null", "Contains", "Array"]],
+        real=["DefaultFunctionCollection, DelegatedFunction, FunctionCollection, ExpressionCalculator (instrumented copy)", "Go runtime clock replaced by the synctest bubble clock",
+              "math/rand global source seeded by GODEBUG=randautoseed=0"],
+        stub=["a panicking delegate 'Boom' registered next to the defaults"],
+        not_decided="That Min, Max, Sum, If, Choose, Abs, Ceil ... compute the value their names denote, which arities are the valid ones, and that a wrong "
+                    "argument is never silently substituted: pure functions of the argument list. Decided: Now/Ticks lie in the simulated call interval, "
+                    "Rnd in [0,1), Date/DayOfWeek read back in the run's zone, every registered name is found in any letter case and returns exactly one "
+                    "of result / error, a panicking delegate gives an error.",
+        assumptions=["synctest time only moves forward; backward clock jumps are not simulated",
+                     "Date arguments are kept in their normal ranges (day <= 28), so normalisation of out-of-range fields is not exercised"],
+    ),
 }
